@@ -57,7 +57,7 @@ func genC09(t *rapid.T) c09Scen {
 	perm := rapid.Permutation(c09IDPool).Draw(t, "ids")
 	for i := 0; i < n; i++ {
 		s.IDs = append(s.IDs, perm[i])
-		s.Vers = append(s.Vers, rapid.SampledFrom([]int{4, 5}).Draw(t, "v"))
+		s.Vers = append(s.Vers, rapid.SampledFrom([]int{3, 4, 5, 5}).Draw(t, "v"))
 	}
 	if s.Vers[0] == 5 && rapid.IntRange(0, 4).Draw(t, "longlived") == 0 {
 		s.LongLived = true
@@ -164,6 +164,12 @@ func c09Connect(b *fixture.Broker, id string, v int, clean bool, auto bool, expi
 }
 
 func runC09(s c09Scen, c *ev.Case) *ev.Violation {
+	for _, v := range s.Vers {
+		if v == 3 {
+			c.Label("mqtt31_client")
+			break
+		}
+	}
 	rs, cleanup, err := fixture.StartRedis()
 	if err != nil {
 		return harnessErr("miniredis: %v", err)
